@@ -15,6 +15,7 @@ import (
 	"hpverif/internal/fsx"
 
 	"github.com/hack-pad/hackpadfs"
+	"github.com/hack-pad/hackpadfs/keyvalue/blob"
 	"github.com/hack-pad/hackpadfs/mem"
 )
 
@@ -24,11 +25,175 @@ import (
 
 func c15hammer(env *core.Env, cs c15case, idx int, res *core.CaseResult) {
 	r := rand.New(rand.NewSource(env.Seed*23_000_009 + int64(idx)))
-	if cs.Rep%2 == 0 {
+	switch cs.Rep % 4 {
+	case 0:
 		c15hammerFile(r, cs, res)
-	} else {
+	case 1:
 		c15hammerOwnChanges(r, cs, res)
+	case 2:
+		c15hammerRenameObserver(r, cs, res)
+	default:
+		c15hammerCrossCopy(r, cs, res)
 	}
+}
+
+// c15hammerRenameObserver: a regular file is renamed along a chain f0 -> f1 -> f2 ... (each rename is one store
+// transaction); observers stat the NEW name and then the OLD name of a link of the chain. Once the new name exists the old
+// one is gone for good (names are never reused), so seeing both is a state no sequential order has.
+func c15hammerRenameObserver(r *rand.Rand, cs c15case, res *core.CaseResult) {
+	m, _ := mem.NewFS()
+	_ = hackpadfs.Mkdir(m, "d", 0o755)
+	_ = hackpadfs.WriteFullFile(m, "d/f0", []byte("payload"), 0o644)
+	links := 800 + r.Intn(1200)
+	observers := 2 + r.Intn(4)
+	var cur int64 // index of the link the renamer works on
+	var stop int32
+	var both, looked int64
+	var firstBoth atomic.Value
+	var wg sync.WaitGroup
+	var renameErr atomic.Value
+	body := func() {
+		wg.Add(1)
+		go func() {
+			defer wg.Done()
+			defer atomic.StoreInt32(&stop, 1)
+			for i := 0; i < links; i++ {
+				atomic.StoreInt64(&cur, int64(i))
+				if p := core.Recover(func() {
+					if err := hackpadfs.Rename(m, fmt.Sprintf("d/f%d", i), fmt.Sprintf("d/f%d", i+1)); err != nil {
+						renameErr.Store(fmt.Sprintf("Rename f%d -> f%d failed: %v", i, i+1, err))
+					}
+				}); p != "" {
+					renameErr.Store("Rename panicked: " + p)
+				}
+				if renameErr.Load() != nil {
+					return
+				}
+			}
+		}()
+		for o := 0; o < observers; o++ {
+			wg.Add(1)
+			go func() {
+				defer wg.Done()
+				for atomic.LoadInt32(&stop) == 0 {
+					i := atomic.LoadInt64(&cur)
+					_, errNew := hackpadfs.Stat(m, fmt.Sprintf("d/f%d", i+1))
+					_, errOld := hackpadfs.Stat(m, fmt.Sprintf("d/f%d", i))
+					atomic.AddInt64(&looked, 1)
+					if errNew == nil && errOld == nil {
+						if atomic.AddInt64(&both, 1) == 1 {
+							firstBoth.Store(fmt.Sprintf("d/f%d and d/f%d", i, i+1))
+						}
+					}
+				}
+			}()
+		}
+		wg.Wait()
+	}
+	hung, confirmed := withWatchdog(body)
+	atomic.StoreInt32(&stop, 1)
+	wit := map[string]any{"case": cs, "links": links, "observers": observers}
+	switch {
+	case hung && confirmed:
+		res.Violate("C15|hammer-rename|deadlock", "renamer/observers stopped making progress; the goroutine dump shows them parked on locks", wit)
+		return
+	case hung:
+		res.Inconclusive = "hammer program did not finish, no blocked-state witness"
+		return
+	}
+	if e := renameErr.Load(); e != nil {
+		res.Violate("C15|hammer-rename|rename-failed", "the only goroutine that changes anything failed: "+e.(string), wit)
+		return
+	}
+	if n := atomic.LoadInt64(&both); n > 0 {
+		res.Violate("C15|hammer-rename|both-names-visible", fmt.Sprintf("an observer found the new name and then still the old name of one rename (%s) in %d of %d looks: a regular-file rename is one store transaction and must be atomic for an observer", firstBoth.Load(), n, atomic.LoadInt64(&looked)), wit)
+	}
+	res.Nontrivial = true
+	res.Count("hammer_rename_programs", 1)
+	res.Count("hammer_ops", links+int(atomic.LoadInt64(&looked)))
+}
+
+// c15hammerCrossCopy: two goroutines copy between two files in opposite directions through the blob interface of the
+// handles (ReadBlobAt / WriteBlobAt, what a copy between files of one file system uses to avoid extra copies).
+func c15hammerCrossCopy(r *rand.Rand, cs c15case, res *core.CaseResult) {
+	m, _ := mem.NewFS()
+	size := []int{64, 4096, 70000}[r.Intn(3)]
+	_ = hackpadfs.WriteFullFile(m, "A", []byte(strings.Repeat("a", size)), 0o644)
+	_ = hackpadfs.WriteFullFile(m, "B", []byte(strings.Repeat("b", size)), 0o644)
+	iters := 400 + r.Intn(600)
+	type blobRW interface {
+		ReadBlobAt(length int, off int64) (blob.Blob, int, error)
+		WriteBlobAt(p blob.Blob, off int64) (int, error)
+	}
+	var problems sync.Map
+	var copies int64
+	var wg sync.WaitGroup
+	body := func() {
+		for g := 0; g < 2; g++ {
+			wg.Add(1)
+			go func(g int) {
+				defer wg.Done()
+				from, to := "A", "B"
+				if g == 1 {
+					from, to = "B", "A"
+				}
+				src, err1 := hackpadfs.OpenFile(m, from, os.O_RDWR, 0)
+				dst, err2 := hackpadfs.OpenFile(m, to, os.O_RDWR, 0)
+				if err1 != nil || err2 != nil {
+					problems.Store("setup", fmt.Sprint(err1, err2))
+					return
+				}
+				defer func() { _ = src.Close(); _ = dst.Close() }()
+				s, ok1 := src.(blobRW)
+				d, ok2 := dst.(blobRW)
+				if !ok1 || !ok2 {
+					problems.Store("setup", "handles do not offer the blob interface")
+					return
+				}
+				for i := 0; i < iters; i++ {
+					if p := core.Recover(func() {
+						b, _, err := s.ReadBlobAt(size, 0)
+						if b == nil || (err != nil && !errors.Is(err, io.EOF)) {
+							problems.Store("read-error", fmt.Sprintf("ReadBlobAt(%d, 0) failed: %v", size, err))
+							return
+						}
+						if n, err := d.WriteBlobAt(b, 0); err != nil || n != b.Len() {
+							problems.Store("write-error", fmt.Sprintf("WriteBlobAt of %d bytes returned n=%d err=%v", b.Len(), n, err))
+						}
+					}); p != "" {
+						problems.Store("panic", p)
+						return
+					}
+					atomic.AddInt64(&copies, 1)
+				}
+			}(g)
+		}
+		wg.Wait()
+	}
+	hung, confirmed := withWatchdog(body)
+	wit := map[string]any{"case": cs, "size": size, "iterations": iters, "copies_completed": atomic.LoadInt64(&copies)}
+	switch {
+	case hung && confirmed:
+		res.Violate("C15|hammer-crosscopy|deadlock", fmt.Sprintf("two goroutines copying A->B and B->A through the handles' blob interface stopped after %d copies; the goroutine dump shows them parked on locks", atomic.LoadInt64(&copies)), wit)
+		return
+	case hung:
+		res.Inconclusive = "hammer program did not finish, no blocked-state witness"
+		return
+	}
+	problems.Range(func(k, v any) bool {
+		res.Violate("C15|hammer-crosscopy|"+k.(string), v.(string), wit)
+		return true
+	})
+	// afterwards both files are whole copies of one of the two originals
+	for _, n := range []string{"A", "B"} {
+		b, err := hackpadfs.ReadFile(m, n)
+		if err != nil || len(b) != size || (strings.Trim(string(b), "a") != "" && strings.Trim(string(b), "b") != "") {
+			res.Violate("C15|hammer-crosscopy|mixed-file", fmt.Sprintf("after the copies %s holds %d bytes that are not one of the two originals (err %v)", n, len(b), err), wit)
+		}
+	}
+	res.Nontrivial = true
+	res.Count("hammer_crosscopy_programs", 1)
+	res.Count("hammer_ops", int(atomic.LoadInt64(&copies)))
 }
 
 // c15hammerFile: readers and positional writers against truncation of the same file, each through its own handle.
@@ -264,7 +429,9 @@ func c15hammerOwnChanges(r *rand.Rand, cs c15case, res *core.CaseResult) {
 				dir := dirOf(w)
 				mine := map[string]bool{}
 				final[w] = mine
-				fail := func(kind, format string, a ...any) { report(kind, fmt.Sprintf("[writer %d in %s] ", w, dir)+fmt.Sprintf(format, a...)) }
+				fail := func(kind, format string, a ...any) {
+					report(kind, fmt.Sprintf("[writer %d in %s] ", w, dir)+fmt.Sprintf(format, a...))
+				}
 				for i := 0; i < iters; i++ {
 					name := fmt.Sprintf("w%d-%d", w, i%5)
 					p := dir + "/" + name
